@@ -889,6 +889,9 @@ func (ev *Evaluator) binop(op string, l, r Value) (Value, *ctrl) {
 		}
 	case StrV:
 		if op == "+" {
+			if len(lv)+len(r.(StrV)) > 1<<16 {
+				return nil, ev.abort("string too long for the model")
+			}
 			return StrV(string(lv) + string(r.(StrV))), nil
 		}
 	}
@@ -979,11 +982,20 @@ func (ev *Evaluator) assign(x Assign, e *env) (Value, *ctrl) {
 		return nil, c
 	}
 	if x.Op == "=" {
+		switch x.L.(type) {
+		case Ident, SingletonRef:
+		default:
+			// the target slot is resolved before the right-hand side runs (see C01-009)
+			ev.pendingSlot++
+			defer func() { ev.pendingSlot-- }()
+		}
 		r, c := ev.eval(x.R, e)
 		if c != nil {
 			return nil, c
 		}
+		ev.pendingSlot-- // the store itself is not a hazard
 		pl.set(r)
+		ev.pendingSlot++
 		if ev.stale {
 			return nil, ev.abort("stale assignment target")
 		}
@@ -1204,6 +1216,14 @@ func (ev *Evaluator) memberCall(recv Value, name string, args []Value) (Value, *
 	switch r := recv.(type) {
 	case *ListV:
 		switch name {
+		case "push", "push_front", "pop", "pop_front", "concat", "sort", "insert", "remove":
+			// restructuring a list while an element slot is pending (as operand or assignment target)
+			ev.slotWrite()
+			if len(r.Elems) > 1<<14 {
+				return nil, ev.abort("list too long for the model")
+			}
+		}
+		switch name {
 		case "len":
 			return IntV(len(r.Elems)), nil
 		case "push":
@@ -1295,7 +1315,7 @@ func (ev *Evaluator) memberCall(recv Value, name string, args []Value) (Value, *
 			return StrV(strings.ToLower(s)), nil
 		case "repeat":
 			n := int64(args[0].(IntV))
-			if n < 0 || n > 1000 {
+			if n < 0 || n > 1000 || int(n)*len(s) > 1<<16 {
 				return nil, ev.abort("repeat count")
 			}
 			return StrV(strings.Repeat(s, int(n))), nil
